@@ -190,7 +190,10 @@ func (w *World) TlaLines(forced bool, label string) []string {
 				"cready":  slices.Contains(e.States, ssC.Ready),
 				"sready":  slices.Contains(e.Tracked, ssS.Ready),
 				"blocked": e.Call, "syncopen": e.Open, "names": nz(e.Names),
-				"mact": nz(e.MAct), "sact": nz(e.SAct)}
+				"mact": nz(e.MAct), "sact": nz(e.SAct), "mtk": e.MTk}
+			if e.MTk == nil {
+				o["mtk"] = []uint64{}
+			}
 			snapFields(o, "s", &src)
 			snapFields(o, "m", e.To)
 			put(o)
